@@ -139,14 +139,16 @@ class LibraryCrash(Exception):
 
 
 # ------------------------------------------------------------------ building the harness
-def harness_overlay(work, accessor, groups=("main",)):
+def harness_overlay(work, accessor, groups=("main",), scalar_accessor=True):
     rep = {}
     acc = "zz_verif_access.go" if accessor else "zz_verif_stub.go"
     rep[os.path.join(REPO, "zz_verif_access.go")] = os.path.join(VERIF, "harness", "access", acc)
+    sacc = "zz_verif_scalar.go" if scalar_accessor else "zz_verif_scalar_stub.go"
+    rep[os.path.join(REPO, "zz_verif_scalar.go")] = os.path.join(VERIF, "harness", "access", sacc)
     for g in groups:
         for f in sorted(glob.glob(os.path.join(VERIF, "harness", g, "*.go"))):
             rep[os.path.join(REPO, "internal", "verifharness", os.path.basename(f))] = f
-    p = os.path.join(work, "overlay_%s_%s.json" % ("acc" if accessor else "stub", "_".join(groups)))
+    p = os.path.join(work, "overlay_%s%s_%s.json" % ("acc" if accessor else "stub", "" if scalar_accessor else "_sstub", "_".join(groups)))
     json.dump({"Replace": rep}, open(p, "w"))
     return p
 
@@ -177,8 +179,8 @@ def build_harness(work, race=False, groups=("main",)):
     """Compile the harness inside /repo's module from the current working tree.  Returns (binary, accessor?)."""
     last = ""
     extra = instrument_overlay(work) if "sched" in groups else {}
-    for accessor in (True, False):
-        ov = harness_overlay(work, accessor, groups)
+    for accessor, sacc in ((True, True), (False, True), (True, False), (False, False)):
+        ov = harness_overlay(work, accessor, groups, sacc)
         if extra:
             d = json.load(open(ov))
             d["Replace"].update(extra)
@@ -192,8 +194,8 @@ def build_harness(work, race=False, groups=("main",)):
         if r.returncode == 0:
             return out, accessor
         last = r.stderr
-        if accessor and "zz_verif_access.go" not in r.stderr:
-            break  # the failure is not about the accessor: the stub will not help
+        if "zz_verif_access.go" not in r.stderr and "zz_verif_scalar.go" not in r.stderr:
+            break  # the failure is not about an accessor: the stubs will not help
     raise Inconclusive("harness does not build against the current tree:\n" + last[-3000:])
 
 
